@@ -37,6 +37,9 @@ pub fn canon_str(js: &str) -> String {
 pub struct Canon {
     pub idx: HashMap<String, usize>,
     pub tids: Vec<String>,
+    /// schedule-independent names: <name of the predecessor task>/<node label>#<k-th such successor>
+    pub names: Vec<String>,
+    pub by_name: HashMap<String, usize>,
     pub statics: HashSet<String>,
     pub extra: bool,
 }
@@ -63,7 +66,7 @@ impl Canon {
             }
         }
         collect(wf, &mut statics);
-        Canon { idx: HashMap::new(), tids: vec![], statics, extra }
+        Canon { idx: HashMap::new(), tids: vec![], names: vec![], by_name: HashMap::new(), statics, extra }
     }
 
     fn ix(&self, tid: &str) -> String {
@@ -96,6 +99,18 @@ impl Canon {
                         "dyn"
                     };
                     let prev = if p[5] == "-" { "-".to_string() } else { self.ix(p[5]) };
+                    let label = if nid == "dyn" { format!("dyn:{}", p[7]) } else { nid.to_string() };
+                    let base = match self.idx.get(p[5]) {
+                        Some(pi) => format!("{}/{}", self.names[*pi], label),
+                        None => label,
+                    };
+                    let mut k = 0;
+                    while self.by_name.contains_key(&format!("{base}#{k}")) {
+                        k += 1;
+                    }
+                    let name = format!("{base}#{k}");
+                    self.by_name.insert(name.clone(), i);
+                    self.names.push(name);
                     writeln!(out, "case {cid}: N {i} {nid} {prev} {} {} {} {}", p[4], p[6], p[7], p[8]).unwrap();
                 }
                 "T" => writeln!(out, "case {cid}: T {} {} {} {}", self.ix(p[2]), p[3], p[4], p[5]).unwrap(),
